@@ -278,7 +278,8 @@ MultiService(lx, data, cap, choice) ==
 (* ------------------------------------- Symbol and Template objects ------------------------------------- *)
 SymTypeWord(P, s) ==
     IF s.kind # "tag" THEN s.typeword
-    ELSE (IF s.t.k = "atomic" THEN s.t.code ELSE 32768 + s.t.tid) + 8192 * Len(Dims(s.dims)) + (IF s.sysflag = 1 THEN 4096 ELSE 0)
+    \* bits 8-10 of an atomic BOOL's type word: the position of the bit inside its host byte (the value is still read as a BOOL)
+    ELSE (IF s.t.k = "atomic" THEN s.t.code + 256 * s.bitpos ELSE 32768 + s.t.tid) + 8192 * Len(Dims(s.dims)) + (IF s.sysflag = 1 THEN 4096 ELSE 0)
 SymRecord(P, s, attrs) ==
     LE32Big(s.iid) \o FlattenSeq([i \in 1..Len(attrs) |->
         CASE attrs[i] = 1 -> LE(Len(s.name), 2) \o s.name
